@@ -86,15 +86,21 @@ def run(ctx):
     # (V) random long compositions
     nv = ctx.pick(8, 60)
     maxlen = ctx.pick(200, 500)
-    for i in range(nv):
+    lop = [(16, 1, 0), (1, 16, 0), (14, 2, 0), (2, 14, 0), (26, 3, 0), (3, 26, 0), (4, 4, 0), (12, 1, 0), (52, 4, 0), (5, 40, 0)]
+    for i in range(nv + len(lop)):
         N = ctx.rng.randint(20, maxlen)
         kind = i % 4
+        if i >= nv:
+            kind = 9
         if kind == 0:
             p = ctx.rng.randint(0, N // 2); n = ctx.rng.randint(0, N - p)
         elif kind == 1:
             p = ctx.rng.randint(1, 3); n = ctx.rng.randint(N // 4, N // 2)
         elif kind == 2:
             n = ctx.rng.randint(1, 3); p = ctx.rng.randint(N // 4, N // 2)
+        elif kind == 9:
+            p, n, zz = lop[i - nv]
+            N = p + n + zz
         else:
             p = ctx.rng.randint(0, N); n = 0 if ctx.rng.random() < 0.5 else N - p
         z = N - p - n
